@@ -2,7 +2,7 @@
 # tools/verify-seed.sh <ID> : independently confirms a sub-agent's seeded change from /tmp/seed-<ID>-out:
 #  patch applies to /repo HEAD in a fresh scratch worktree, module builds, unedited suite passes,
 #  demonstration fails with the change and passes without it. Prints a summary; leaves nothing behind.
-ID="$1"; OUT="/tmp/seed-$ID-out"
+ID="$1"; OUT="${SEED_OUT:-/tmp/seed-$ID-out}"
 export GOFLAGS=-mod=mod GOPROXY=off GOSUMDB=off GOTOOLCHAIN=local
 SCR="/root/vscratch/vs.$ID.$$"; mkdir -p /root/vscratch
 git -C /repo worktree add -q --detach "$SCR" HEAD || exit 2
